@@ -1,4 +1,4 @@
-#![allow(dead_code, unused_imports, clippy::all)]
+#![allow(dead_code, unused_imports, non_snake_case, clippy::all)]
 //! Kani harnesses over the real winterfell crates in /repo (path dependencies).
 #[cfg(kani)]
 pub mod model;
